@@ -16,11 +16,11 @@ func init() { register("C16", "fault_enumeration", runC16) }
 const c16T = 300 // ms
 
 type c16case struct {
-	n       int
-	stalled int  // bitmask of stalled positions
-	late    bool // stalled backends answer after 3T (else only after the verdict)
-	split   int  // position that is a split request (-1 none)
-	fmask   int  // stalled fragments of the split request (when it is stalled)
+	n        int
+	stalled  int  // bitmask of stalled positions
+	late     bool // stalled backends answer after 3T (else only after the verdict)
+	split    int  // position that is a split request (-1 none)
+	fmask    int  // stalled fragments of the split request (when it is stalled)
 	sameNode bool // requests behind the stalled one go to the same node (head-of-line)
 }
 
